@@ -282,6 +282,51 @@ fn choose(rng: &mut Rng, sim: &Sim, en: &[Act]) -> Option<Act> {
     None
 }
 
+/// Deep pipelines: one client has 70..120 requests with the application (yielded, unanswered) while the witness
+/// does round trips; then everything is answered, in one batch or one by one, and every answer arrives.
+fn deep_pipeline_family(ctx: &mut Ctx, n: u64) {
+    let mut rng = ctx.rng.fork(0xDEE9);
+    for _ in 0..n {
+        ctx.begin();
+        ctx.rep.evaluations += 1;
+        ctx.rep.count("histories_deep_pipeline");
+        let mut p = P09::new(3, 40);
+        let mut acts: Vec<Act> = vec![Act::Connect(1), Act::Poll];
+        let bursts = rng.range(8, 13);
+        for b in 0..bursts {
+            acts.push(Act::Send(1, Piece::Many));
+            if b % 2 == 1 || rng.chance(1, 2) {
+                acts.push(Act::Poll);
+            }
+            if b == bursts / 2 {
+                acts.push(Act::RoundTrip(0));
+            }
+        }
+        acts.push(Act::Poll);
+        acts.push(Act::Poll);
+        acts.push(Act::RoundTrip(0));
+        if rng.chance(1, 2) {
+            acts.push(Act::RespondBatch(rng.below(3) as u64, Size::Small));
+        } else {
+            acts.push(Act::RespondAll(Size::Small));
+        }
+        for _ in 0..6 {
+            acts.push(Act::Poll);
+            acts.push(Act::Drain(1));
+        }
+        acts.push(Act::RoundTrip(0));
+        let out = hist::run_history(ctx, &mut p, &acts, true, false);
+        let mut verdict = out.violation;
+        if verdict.is_none() {
+            ctx.rep.max("max_requests_in_flight_on_one_connection", (bursts * 9) as u64);
+        }
+        if let Some((k, d)) = verdict.take() {
+            ctx.rep.violation(&format!("C09:{}", k), d, hist::history_json(&acts, vec![]));
+            return;
+        }
+    }
+}
+
 /// A talkative client: a second thread keeps one client's socket filled with acceptable bytes (a request
 /// whose header section never ends) while the witness wants a round trip. The work one polling call does for
 /// one client must stay bounded: the verdict is taken on logical steps (the hook's step budget of 40000 state
@@ -582,6 +627,7 @@ pub fn run(ctx: &mut Ctx) {
     p.app_extras = true;
     hist::random_histories(ctx, &mut p, n / 2 + 1, 15, 90, "C09", &mut choose);
     vanishing_client_family(ctx, ctx.budget(1_600, 60_000) / ctx.nshards);
+    deep_pipeline_family(ctx, ctx.budget(8, 200) / 4 + 1);
     if ctx.shard % 4 == 0 {
         // (on a quarter of the shards: the sender thread needs a core of its own to be of any use)
         talkative_client_family(ctx, ctx.budget(6, 60));
